@@ -3,6 +3,7 @@ package vsched
 import (
 	"fmt"
 	"sort"
+	"strings"
 	"time"
 
 	"golang.org/x/net/internal/zzverif/vx"
@@ -112,6 +113,9 @@ func runAll(c *vx.Ctx, part string, progs []Program, bound int, done map[string]
 			c.Sample(map[string]any{"program": p.Name, "outcomes": obs})
 		}
 		for _, f := range st.Failures {
+			if strings.HasPrefix(f.Sig, "HARNESS:") {
+				c.T.Fatalf("harness self-check failed in %s: %s: %s (schedule %v)", p.Name, f.Sig, f.What, f.Schedule)
+			}
 			// confirm: the same schedule must fail the same way 5 times
 			n := 0
 			for i := 0; i < 5; i++ {
